@@ -67,6 +67,17 @@ pub fn dec_f64(s: &str) -> f64 {
     }
 }
 
+/// the text printed by INTERNALS / STATS is not modelled: the command emits exactly one Print record, the last one of
+/// the event (records still pending from an earlier tick come before it); show it as the model's opaque record
+fn opaque_prints(r: &str) -> String {
+    let mut parts: Vec<String> = r.split(' ').map(|p| p.to_string()).collect();
+    if let Some(k) = parts.iter().rposition(|p| p.starts_with("print:") || p.starts_with("ui=print:")) {
+        let lead = if parts[k].starts_with("ui=") { "ui=" } else { "" };
+        parts[k] = format!("{}warning:{}", lead, hex("<opaque>\n"));
+    }
+    parts.join(" ")
+}
+
 fn first_word_is(line: &str, words: &[&str]) -> bool {
     match line.to_uppercase().split_ascii_whitespace().next() {
         Some(w) => words.contains(&w.to_ascii_uppercase().as_str()),
@@ -303,6 +314,7 @@ pub struct Session {
     pub panicked: Option<String>,
     pub lsp: Option<LspServer>,
     pub page: Option<crate::web::Pair>,
+    pub real: Option<crate::realpage::RealPage>,
 }
 
 impl Default for Session {
@@ -314,6 +326,7 @@ impl Default for Session {
             panicked: None,
             lsp: None,
             page: None,
+            real: None,
         }
     }
 }
@@ -390,31 +403,50 @@ impl Session {
                 let t2 = text.clone();
                 let opaque = first_word_is(&text, &["INTERNALS", "STATS"]);
                 let r = self.page.get_or_insert_with(crate::web::Pair::new).event(move |p| p.submit(&text), move |p| p.submit(&t2));
-                if opaque {
-                    // the text printed by INTERNALS / STATS is not modelled (the adapter-vs-core comparison above saw the real
-                    // text on both sides): show the run of print records as the model's single opaque record
-                    let mut out: Vec<String> = vec![];
-                    let mut in_run = false;
-                    for part in r.split(' ') {
-                        if part.starts_with("print:") || (in_run && part.starts_with("ui=print:")) {
-                            if !in_run {
-                                out.push(format!("warning:{}", hex("<opaque>\n")));
-                                in_run = true;
-                            }
-                        } else if let Some(rest) = part.strip_prefix("ui=print:") {
-                            let _ = rest;
-                            out.push(format!("ui=warning:{}", hex("<opaque>\n")));
-                            in_run = true;
-                        } else {
-                            in_run = false;
-                            out.push(part.to_string());
-                        }
-                    }
-                    out.join(" ")
-                } else {
-                    r
-                }
+                if opaque { opaque_prints(&r) } else { r }
             }
+            // the same events on the page script itself (main.ts under node) driving the real adapter
+            ["rnew"] => match crate::realpage::RealPage::spawn() {
+                Ok(mut p) => {
+                    let r = p.event("new");
+                    self.real = Some(p);
+                    if r.starts_with("TRAP") || r.starts_with("PAGE") { r } else { "ok".to_string() }
+                }
+                Err(e) => format!("PAGE-DRIVER {}", hex(&e)),
+            },
+            ["rseed", n] => {
+                let n: u64 = n.parse().unwrap();
+                if let Some(p) = self.real.as_mut() {
+                    p.seed(n);
+                }
+                "ok".to_string()
+            }
+            ["rstart"] => match self.real.as_mut() {
+                // the welcome line and first prompt are not part of the transliteration
+                Some(p) => { let r = p.event("start"); if r.starts_with("TRAP") || r.starts_with("PAGE") { r } else { "ok".to_string() } }
+                None => "no-page".to_string(),
+            },
+            ["rload", rest @ ..] => match self.real.as_mut() {
+                Some(p) => p.event(&format!("load {}", rest.first().copied().unwrap_or(""))),
+                None => "no-page".to_string(),
+            },
+            ["rsubmit", rest @ ..] => {
+                let text = rest.first().and_then(|h| unhex(h)).unwrap_or_default();
+                let opaque = first_word_is(&text, &["INTERNALS", "STATS"]);
+                let r = match self.real.as_mut() {
+                    Some(p) => p.event(&format!("submit {}", rest.first().copied().unwrap_or(""))),
+                    None => "no-page".to_string(),
+                };
+                if opaque { opaque_prints(&r) } else { r }
+            }
+            ["rbreak"] => match self.real.as_mut() {
+                Some(p) => p.event("break"),
+                None => "no-page".to_string(),
+            },
+            ["rtick"] => match self.real.as_mut() {
+                Some(p) => p.event("tick"),
+                None => "no-page".to_string(),
+            },
             ["wbreak"] => self.page.get_or_insert_with(crate::web::Pair::new).event(|p| p.break_now(), |p| p.break_now()),
             ["wtick"] => self.page.get_or_insert_with(crate::web::Pair::new).event(|p| p.tick(), |p| p.tick()),
             ["cli", w, t, sk, h] => match unhex(h) {
